@@ -161,6 +161,7 @@ type RunCfg struct {
 	ClockVaryPct int  `json:"clock_vary_pct,omitempty"`
 	CPUVary      bool `json:"cpu_vary,omitempty"`
 	RandVary     bool `json:"rand_vary,omitempty"`
+	KeepPools    bool `json:"keep_pools,omitempty"`
 }
 
 // World is the complete workload of one run.
